@@ -7,7 +7,9 @@ in (allowed and refused ones); peer traffic makes the library send on its own
 (Logon reply, Heartbeat for a TestRequest, ResendRequest for a gap, Logout for a
 wrong TestReqID, watchdog TestRequests, replays for a ResendRequest).
 """
+import os
 import random
+import shutil
 
 from asyncfix import FIXMessage, FMsg, FTag
 from asyncfix.connection import ConnectionState
@@ -30,6 +32,8 @@ def make_config(seed, tier="quick"):
     return dict(
         u8=random.Random(seed ^ 0xC05A8).random() < 0.3,  # non-ASCII values in application messages (separate stream)
         empty_vals=random.Random(seed ^ 0xC05E0).random() < 0.25,  # fields with an empty value, outbound and echoed from inbound
+        # journal in a file, stored counter read the way another process would (own connection: committed data only)
+        file_journal=random.Random(seed ^ 0xC05F1).random() < 0.3,
         seed=seed,
         eut_role=r.choice(["acceptor", "initiator"]),
         hb=r.choice([2, 5, 30, 1000]),
@@ -297,6 +301,50 @@ class OutboundSim(PeerSim):
         self.checked_upto = len(w)
         return fresh
 
+    def make_journal(self):
+        self._jdir = None
+        if not self.cfg.get("file_journal"):
+            return super().make_journal()
+        from .journal import make_run_dir
+        from .pair import TapJournaler
+
+        self._jdir = make_run_dir()
+        return TapJournaler(os.path.join(self._jdir, "out.db"))
+
+    def teardown(self):
+        try:
+            super().teardown()
+        finally:
+            if getattr(self, "_jdir", None):
+                # (the Journaler closes its connection itself when it is collected; unlinking open files is fine)
+                shutil.rmtree(self._jdir, ignore_errors=True)
+
+    def durable_stored_out(self):
+        """Next outbound number as a process that opens the journal file now would find it (None: in-memory
+        journal).  Own connection, no waiting: sees committed data only."""
+        if not getattr(self, "_jdir", None):
+            return None
+        import sqlite3
+
+        lv = self.live()
+        c = sqlite3.connect("file:" + os.path.join(self._jdir, "out.db") + "?mode=ro", uri=True, timeout=0)
+        try:
+            row = c.execute("SELECT outboundSeqNo FROM session WHERE targetCompId = ? AND senderCompId = ?",
+                            (lv.target_comp_id, lv.sender_comp_id)).fetchone()
+        except sqlite3.OperationalError as e:
+            return "locked: " + str(e)
+        finally:
+            c.close()
+        self.stat("durable_counter_reads")
+        return None if row is None else row[0] + 1
+
+    def check_durable(self, when):
+        d = self.durable_stored_out()
+        if d is not None and d != self.max_new + 1:
+            raise Violation("stored-counter", f"C05/stored-next-out-not-durable/{when}",
+                            f"a process opening the journal file now finds next outbound number {d}, last number sent "
+                            f"{self.max_new} (the journal's own connection says {self.journal.stored()[1]})")
+
     def check_journal(self, fresh, when):
         for (n, d, fr) in fresh:
             got = self.journal.recover_msg(self.live(), MessageDirection.OUTBOUND, n)
@@ -316,6 +364,7 @@ class OutboundSim(PeerSim):
                 raise Violation("stored-counter", "C05/stored-next-out-not-last-plus-one/after-send",
                                 f"after a completed send of {ent['type']}: stored next outbound number {stored_out}, "
                                 f"last number sent {self.max_new}")
+            self.check_durable("after-send")
         except Violation as v:
             self.violation = v
             self._stop("violation")
@@ -340,6 +389,7 @@ class OutboundSim(PeerSim):
         if stored_out != self.max_new + 1 or live_out != self.max_new + 1:
             raise Violation("stored-counter", "C05/stored-next-out-not-last-plus-one/at-end",
                             f"stored next outbound number {stored_out}, live {live_out}, last number sent {self.max_new}")
+        self.check_durable("at-end")
         if self.seen_new >= 3:
             self.probe("runs_with_three_or_more_new_frames")
 
